@@ -5,7 +5,9 @@ from hypothesis import strategies as st
 import cssutils
 from vlib import cssmodel as A
 from vlib import project as P
-from vlib.runner import Sub, Violation, lib
+import xml.dom
+
+from vlib.runner import Sub, Violation, frame_sig, lib
 
 PROPERTY = 'C02'
 RULE = (
@@ -17,7 +19,7 @@ RULE = (
     'at-keywords, property names, units, !important, pseudo and function names, quote style, URL form, hex escapes and '
     'simple escapes in normalised names). Oracles: (1) projection of parse(canonical) == projection computed from the '
     'model; (2) every spelling projects like the canonical text; (3) parseComments=False removes exactly the comments; '
-    'validate=False changes nothing. Non-trivial: >=2 statement kinds or a declaration with >=2 value components, and '
+    'validate=False changes nothing; (4) with CSSParser(raiseExceptions=True) a spelling raises no DOM exception when the canonical text raises none. Non-trivial: >=2 statement kinds or a declaration with >=2 value components, and '
     'the spelling differs from the canonical text; distinct by (model, spelling).'
 )
 ASSUMPTIONS = [
@@ -78,6 +80,29 @@ def check(case, ctx):
         raise Violation('options:validate-off-changes-dom', f'{text!r}: {P.first_diff(g, exp)}')
     if ser_a != ser_b:
         raise Violation('options:validate-off-changes-serialisation', f'{text!r}')
+    # raising mode: a spelling raises no error the canonical text does not raise
+    saved = cssutils.log.raiseExceptions
+    cssutils.log.raiseExceptions = True
+    try:
+        def raised(t):
+            try:
+                cssutils.CSSParser(fetcher=fetcher, raiseExceptions=True).parseString(t, href='http://example.com/base/sheet.css')
+            except xml.dom.DOMException as e:
+                return type(e).__name__
+            except Exception as e:  # noqa: BLE001
+                raise Violation('crash:parse-raising-mode:' + frame_sig(e), f'{t!r}: {e!r}')
+            return None
+
+        rc = raised(canon)
+        if rc is None:
+            rs = raised(text)
+            ctx.event('raising-mode-compared')
+            if rs is not None:
+                raise Violation('spelling:raises-in-raising-mode', f'spelling {text!r} raises {rs}, the canonical text {canon!r} parses')
+        else:
+            ctx.event('raising-mode:canonical-raises')
+    finally:
+        cssutils.log.raiseExceptions = saved
     for s in m['stmts']:
         ctx.event('stmt:' + s['k'])
     ctx.case([canon, case['seeds']], nt and A.model_nontrivial(m), {'canonical': canon, 'spelling': text})
